@@ -201,6 +201,7 @@ type PlantSpec struct {
 	Stalls    []Interval `json:"stalls,omitempty"`    // rotor blocked
 	NeverSpin bool       `json:"neverSpin,omitempty"` // reports 0 RPM always
 	InitRpm   int        `json:"initRpm,omitempty"`
+	MinRpm    int        `json:"minRpm,omitempty"` // the rotor never reports less than this (always-spinning fan)
 }
 
 type FanSpec struct {
